@@ -215,7 +215,7 @@ def shard(sh: Shard, seed, lo, hi, nf):
 
 def main(tier, seed):
     run = Run("C17", tier, seed, "exploration")
-    per, nf = (25, 8) if tier == "quick" else (300, 100)
+    per, nf = (40, 10) if tier == "quick" else (1200, 300)
     jobs = [{"seed": seed, "lo": i * per, "hi": (i + 1) * per, "nf": nf} for i in range(NCPU)]
     run.absorb(run_shards("checks.c17", "shard", jobs, timeout=3000))
     run.extra["table_members_checked"] = None
